@@ -17,6 +17,7 @@
 //   rereport  report() as an explicit history operation (the other sections observe every report from an emptied
 //             output buffer): repeated reports interleaved with alloc/free/startChecking/unknown release
 //   resat     one outstanding block, report asked 60 times in a row
+//   destroyed histories in which the destructor of an allocator object runs and its blocks are released / reallocated later
 //   many      0..80,100,200,1000 outstanding blocks: reports that fill the 4 KB buffer keep an exact total line
 #include <sanitizer/asan_interface.h>
 #include <string>
@@ -142,10 +143,34 @@ struct ArenaAllocator : TestMemoryAllocator {
     void freeMemoryLeakNode(char* memory) override { pool_free(memory); }
 };
 enum Kind { K_NEW = 0, K_ARR = 1, K_MAL = 2 };
-ArenaAllocator g_alloc[3] = {
-    ArenaAllocator("Standard New Allocator", "new", "delete"),
-    ArenaAllocator("Standard New [] Allocator", "new []", "delete []"),
-    ArenaAllocator("Standard Malloc Allocator", "malloc", "free")};
+// The three allocator objects are placement-constructed in harness storage, so that a history can run the destructor of
+// one of them (hasBeenDestroyed() then answers true, the object's memory stays valid - the static-destruction-order case the
+// detector caters for) and the next history gets a fresh object.
+alignas(ArenaAllocator) char g_alloc_store[3][sizeof(ArenaAllocator)];
+ArenaAllocator* const g_alloc = reinterpret_cast<ArenaAllocator*>(g_alloc_store);
+bool g_alloc_dead[3] = {true, true, true};
+void allocators_fresh() {
+    static const char* N[3][3] = {{"Standard New Allocator", "new", "delete"}, {"Standard New [] Allocator", "new []", "delete []"}, {"Standard Malloc Allocator", "malloc", "free"}};
+    for (int k = 0; k < 3; k++) if (g_alloc_dead[k]) { ::new ((void*)&g_alloc[k]) ArenaAllocator(N[k][0], N[k][1], N[k][2]); g_alloc_dead[k] = false; }
+}
+void allocator_destroy(int k) {
+    g_alloc[k].~ArenaAllocator(); g_alloc_dead[k] = true;
+    // The library keeps using such an object by design (hasBeenDestroyed(), alloc_name() in reports). An uninstrumented build
+    // leaves the TestMemoryAllocator base vptr behind; the UBSan build (-fsanitize=vptr) zeroes it at the end of the destructor
+    // and would abort on the first such use. Put the base-class vptr back so that the sanitized build behaves like the product.
+    static TestMemoryAllocator base_proto("proto", "proto", "proto");
+    memcpy((void*)&g_alloc[k], (const void*)&base_proto, sizeof(void*));
+    if (!g_alloc[k].hasBeenDestroyed()) vf::harness_error("destructor ran but hasBeenDestroyed() is false (store eliminated?)");
+}
+// After its destructor an allocator object dispatches to the TestMemoryAllocator base (malloc / PlatformSpecificFree): the
+// free seam hands arena blocks and pool records back to where they came from and everything else to free().
+void (*g_saved_free)(void*);
+void seam_free(void* p) {
+    char* c = (char*)p;
+    if (c >= g_noderaw && c < g_noderaw + sizeof g_noderaw) { pool_free(c); return; }
+    if (slot_of(c) >= 0) { arena_free(c); return; }
+    g_saved_free(p);
+}
 const char* ANAME[3] = {"new", "new []", "malloc"};
 const char* LOCFILE[3] = {"n.cpp", "a.cpp", "m.c"};
 const char* PNAME[4] = {"all", "disabled", "enabled", "checking"};
@@ -355,10 +380,11 @@ struct Cfg {
     unsigned period_mask; int maxstage; bool release; unsigned clear_mask; bool mark; bool misuse; bool prune;
     int rfail = 0;      // failing realloc variants offered per malloc block: 1 = platform realloc answers NULL; 2 = + size SIZE_MAX/2; 3 = + size SIZE_MAX-2
     bool table_ops = false;   // route 3: save+restore cycle and off+on of the routing table as operations
+    bool destroy = false;     // operation: run the destructor of the allocator object of one family (releases / reallocs through it stay allowed)
 };
-enum OpK { ALLOC, FREE, REALLOC, REALLOC_NULL, START, STOP, ENABLE, DISABLE, INC, DEC, RELEASE, CLEAR, MARK, FREE_STALE, FREE_FOREIGN, REALLOC_FOREIGN, REALLOC_FAIL, REALLOC_NULL_FAIL, TABLE_CYCLE, TABLE_OFFON };
+enum OpK { ALLOC, FREE, REALLOC, REALLOC_NULL, START, STOP, ENABLE, DISABLE, INC, DEC, RELEASE, CLEAR, MARK, FREE_STALE, FREE_FOREIGN, REALLOC_FOREIGN, REALLOC_FAIL, REALLOC_NULL_FAIL, TABLE_CYCLE, TABLE_OFFON, DESTROY };
 const char* OPNAME[] = {"alloc", "free", "realloc", "realloc-null", "startChecking", "stopChecking", "enable", "disable", "increaseAllocationStage", "decreaseAllocationStage",
-                        "releaseStage", "clearAllAccounting", "markCheckingPeriodLeaks", "free-unknown", "free-unknown", "realloc-unknown", "realloc-fail", "realloc-null-fail", "table-save-restore", "table-off-on"};
+                        "releaseStage", "clearAllAccounting", "markCheckingPeriodLeaks", "free-unknown", "free-unknown", "realloc-unknown", "realloc-fail", "realloc-null-fail", "table-save-restore", "table-off-on", "destroy-allocator"};
 struct Op { OpK k; int a, b; };
 
 struct History {
@@ -366,13 +392,16 @@ struct History {
     std::vector<Rec> recs; MemLeakPeriod cur = mem_leak_period_disabled; int stage = 0; unsigned next_number = 1;
     unsigned char exp_slot[NSLOTS];
     char* stale = nullptr; int stale_kind = 0, stale_boff = 0;
+    bool dead[3] = {false, false, false};   // allocator objects whose destructor has run in this history
     std::string trace; bool nontrivial = false; int removals = 0, callbacks = 0, failed_reallocs = 0;
     MemoryLeakDetector* saved_det = nullptr; MemoryLeakFailure* saved_rep = nullptr; void* (*saved_realloc)(void*, size_t);
 
     explicit History(const Cfg& c) : cfg(c), det(&rep) {
         arena_reset(); memset(exp_slot, 0, sizeof exp_slot);
         drv.det = &det; drv.route = c.route;
+        allocators_fresh();
         saved_realloc = PlatformSpecificRealloc; PlatformSpecificRealloc = arena_realloc;
+        g_saved_free = PlatformSpecificFree; PlatformSpecificFree = seam_free;
         if (c.route == 3) {
             saved_det = MemoryLeakWarningPlugin::getGlobalDetector(); saved_rep = MemoryLeakWarningPlugin::getGlobalFailureReporter();
             MemoryLeakWarningPlugin::setGlobalDetector(&det, &rep);
@@ -380,7 +409,7 @@ struct History {
         }
     }
     ~History() {
-        PlatformSpecificRealloc = saved_realloc;
+        PlatformSpecificRealloc = saved_realloc; PlatformSpecificFree = g_saved_free;
         if (cfg.route == 3) {
             setCurrentNewAllocatorToDefault(); setCurrentNewArrayAllocatorToDefault(); setCurrentMallocAllocatorToDefault();
             MemoryLeakWarningPlugin::setGlobalDetector(saved_det, saved_rep);
@@ -400,8 +429,8 @@ struct History {
     int enabled(Op* ops) const {
         int n = 0;
         if ((int)recs.size() < cfg.maxlive) {
-            for (size_t i = 0; i < cfg.av.size(); i++) ops[n++] = {ALLOC, (int)i, 0};
-            if (cfg.realloc_null) ops[n++] = {REALLOC_NULL, 0, 0};
+            for (size_t i = 0; i < cfg.av.size(); i++) if (!dead[cfg.av[i].kind]) ops[n++] = {ALLOC, (int)i, 0};
+            if (cfg.realloc_null && !dead[K_MAL]) ops[n++] = {REALLOC_NULL, 0, 0};
         }
         for (size_t i = 0; i < recs.size(); i++) ops[n++] = {FREE, (int)i, 0};
         for (size_t i = 0; i < recs.size(); i++) if (recs[i].kind == K_MAL) for (size_t s = 0; s < cfg.rsizes.size(); s++) ops[n++] = {REALLOC, (int)i, (int)s};
@@ -416,6 +445,7 @@ struct History {
         if (cfg.release) ops[n++] = {RELEASE, 0, 0};
         for (int p = 0; p < 4; p++) if (cfg.clear_mask & (1u << p)) ops[n++] = {CLEAR, p, 0};
         if (cfg.mark) ops[n++] = {MARK, 0, 0};
+        if (cfg.destroy) for (int k = 0; k < 3; k++) if (!dead[k]) ops[n++] = {DESTROY, k, 0};
         if (cfg.table_ops && cfg.route == 3) { ops[n++] = {TABLE_CYCLE, 0, 0}; ops[n++] = {TABLE_OFFON, 0, 0}; }
         if (cfg.misuse) {
             if (stale) ops[n++] = {FREE_STALE, 0, 0};
@@ -462,7 +492,7 @@ struct History {
             trace += vf::fmt("free(#%u) ", r.number);
             note_removal(r);
             recs.erase(recs.begin() + op.a);
-            if (r.slot >= 0) exp_slot[r.slot] = 2;
+            if (r.slot >= 0) exp_slot[r.slot] = dead[r.kind] ? 0xff : 2;      // destroyed allocator: whether the memory goes back is not asserted
             drv.release(r.kind, r.addr, r.form);
             break; }
         case REALLOC: {
@@ -473,12 +503,13 @@ struct History {
             trace += vf::fmt("realloc(#%u,%zu,b%d) ", r.number, size, nb);
             note_removal(r);
             recs.erase(recs.begin() + op.a);
-            if (r.slot >= 0) exp_slot[r.slot] = 2;
+            if (r.slot >= 0) exp_slot[r.slot] = dead[r.kind] ? 0xff : 2;
             g_next_boff = nb;
             char* p = drv.realloc(r.addr, size, "re.c", 100 + step);
             if (!p) return failed(name, "returned-null", "realloc of an outstanding block returned NULL");
             memset(p, 'a' + (step % 26), size);
             add_rec(p, size, K_MAL, "re.c", 100 + step, nb, F_LOC);
+            if (dead[K_MAL] && recs.back().slot >= 0) exp_slot[recs.back().slot] = 0xff;
             break; }
         case START: trace += "startChecking "; det.startChecking(); cur = mem_leak_period_checking; break;
         case STOP: trace += "stopChecking "; det.stopChecking(); cur = mem_leak_period_enabled; break;
@@ -489,7 +520,7 @@ struct History {
         case RELEASE: {
             trace += "releaseStage ";
             for (size_t i = 0; i < recs.size();) {
-                if (recs[i].stage == stage) { note_removal(recs[i]); if (recs[i].slot >= 0) exp_slot[recs[i].slot] = 2; recs.erase(recs.begin() + i); }
+                if (recs[i].stage == stage) { note_removal(recs[i]); if (recs[i].slot >= 0) exp_slot[recs[i].slot] = dead[recs[i].kind] ? 0xff : 2; recs.erase(recs.begin() + i); }
                 else i++;
             }
             det.deallocAllMemoryInCurrentAllocationStage();
@@ -536,6 +567,10 @@ struct History {
             failed_reallocs++;
             if (p) return failed(name, "returned-non-null", "a realloc that could not be satisfied returned a pointer");
             break; }
+        case DESTROY:
+            // Reference: nothing changes; afterwards the family's outstanding blocks are released / reallocated like any other as
+            // far as the accounting goes (set, totals, report, no-leaks answer, no callback)
+            trace += vf::fmt("~allocator(%s) ", ANAME[op.a]); allocator_destroy(op.a); dead[op.a] = true; break;
         case TABLE_CYCLE: trace += "table:save+restore "; drv.table_cycle(); break;
         case TABLE_OFFON: trace += "table:off+on "; drv.table_off_on(); break;
         case REALLOC_FOREIGN: {
@@ -561,7 +596,7 @@ struct History {
         // memory handed back exactly for the released blocks
         if (g_double_free || g_foreign_free || g_node_bad_free)
             return failed(name, "allocator-bad-free", vf::fmt("underlying allocator saw %d double / %d foreign block releases and %d bad record releases", g_double_free, g_foreign_free, g_node_bad_free));
-        for (int s = 0; s < g_nslot; s++) if (g_slot[s].state != exp_slot[s])
+        for (int s = 0; s < g_nslot; s++) if (exp_slot[s] != 0xff && g_slot[s].state != exp_slot[s])
             return failed(name, "block-memory-state", vf::fmt("slot %d is %s, expected %s", s, g_slot[s].state == 1 ? "still held" : "returned to the allocator", exp_slot[s] == 1 ? "still held" : exp_slot[s] == 2 ? "returned" : "never handed out"));
         { std::string d = chain_check(det); if (!d.empty()) return failed(name, "table-references-released-record", d); }
         return observe(name);
@@ -588,7 +623,7 @@ struct History {
     // validated by chain_check in this execution) of the model's (kind,size,period,stage), bucket of the stale address
     std::string key() {
         std::string k;
-        k += (char)('0' + (int)cur); k += (char)('0' + stage); k += drv.cycled ? 'c' : 'f';
+        k += (char)('0' + (int)cur); k += (char)('0' + stage); k += drv.cycled ? 'c' : 'f'; if (cfg.destroy) k += (char)('0' + (dead[0] ? 1 : 0) + (dead[1] ? 2 : 0) + (dead[2] ? 4 : 0));
         for (int i = 0; i < MemoryLeakDetectorTable::hash_prime; i++) {
             MemoryLeakDetectorNode* n = det.memoryTable_.table_[i].head_;
             if (!n) continue;
@@ -846,6 +881,7 @@ int main(int argc, char** argv) {
     vf::init(argc, argv, "C04");
     MemoryLeakWarningPlugin::turnOffNewDeleteOverloads();
     arena_init();
+    allocators_fresh();
     bool T = vf::thorough();
     bool NG = strcmp(VF_FLAVOUR, "noguard") == 0;
     vf::info("rule", "every history over the section's operation alphabet up to its depth, each replayed on a fresh private detector whose allocators place every block in a chosen hash bucket (0, 16 or 72); after every transition the four totals and four parsed reports are compared with the set model; non-trivial = some block was removed (free, realloc, stage release, clear) from a bucket chain holding at least two records");
@@ -866,7 +902,7 @@ int main(int argc, char** argv) {
                        a.c_str(), c.realloc_null ? "+ realloc(NULL,8)" : "")
              + [&] { std::string s; for (auto z : c.rsizes) s += std::to_string(z) + " "; return s; }()
              + vf::fmt("}), %sstages 0..%d%s, clear {%s}%s%s; %s", c.period_mask == 15 ? "start/stopChecking, enable, disable, " : c.period_mask == 9 ? "startChecking, disable, " : "", c.maxstage, c.release ? " + stage release" : "", cl.c_str(),
-                       c.mark ? ", mark" : "", (std::string(c.table_ops ? ", routing table: saveAndDisable+restore cycle, turnOff+turnOnDefault" : "") + std::string(c.misuse ? ", free(stale), free(foreign), realloc(foreign)" : "") + (c.rfail ? vf::fmt(", failing realloc of a malloc block (%s)%s", c.rfail == 1 ? "platform realloc answers NULL" : c.rfail == 2 ? "platform NULL; size SIZE_MAX/2" : "platform NULL; size SIZE_MAX/2; size SIZE_MAX-2", c.realloc_null ? " and of NULL" : "") : "")).c_str(), c.prune ? "pruned on canonical model state (chains in order, period, stage)" : "unpruned");
+                       c.mark ? ", mark" : "", (std::string(c.destroy ? ", destructor of the new / new[] / malloc allocator object (its blocks stay releasable and reallocatable)" : "") + std::string(c.table_ops ? ", routing table: saveAndDisable+restore cycle, turnOff+turnOnDefault" : "") + std::string(c.misuse ? ", free(stale), free(foreign), realloc(foreign)" : "") + (c.rfail ? vf::fmt(", failing realloc of a malloc block (%s)%s", c.rfail == 1 ? "platform realloc answers NULL" : c.rfail == 2 ? "platform NULL; size SIZE_MAX/2" : "platform NULL; size SIZE_MAX/2; size SIZE_MAX-2", c.realloc_null ? " and of NULL" : "") : "")).c_str(), c.prune ? "pruned on canonical model state (chains in order, period, stage)" : "unpruned");
     };
     auto run_dfs = [&](const Cfg& c, int min_outcomes) {
         vf::info(std::string(c.name) + ".bound", describe(c));
@@ -882,6 +918,7 @@ int main(int argc, char** argv) {
     run_dfs(Cfg{"unk",  T ? 10 : 8,            4,         0, AV_3,     {24},    false, 0,  0, true, 0x1,       false, true,  true}, 10);
     if (!NG) run_dfs(Cfg{"inl", T ? 7 : 6,     4,         1, AV_MED,   {1, 24}, false, 9,  1, true, 0x8,       false, false, true, 3}, 10);
     run_dfs(Cfg{"sep",  T ? 7 : 6,             4,         2, AV_MED,   {1, 24}, false, 9,  1, true, 0x8,       false, false, true, 3}, 10);
+    run_dfs(Cfg{"destroyed", T ? 8 : 7,        4,         0, AV_3,     {24},    false, 9,  1, true, 0x8,       false, false, true, 1, false, true}, 10);
     // route 3: every allocating entry of the routing table, each with its reference kind and location
     const std::vector<AllocVar> AV_GLOB = {{K_NEW, 1, 0, false, F_PLAIN}, {K_ARR, 8, 1, false, F_PLAIN}, {K_NEW, 8, 2, false, F_NOTHROW}, {K_ARR, 1, 0, false, F_NOTHROW},
                                            {K_NEW, 1, 1, true, F_LOC}, {K_ARR, 8, 0, true, F_LOC}, {K_MAL, 8, 0, true, F_LOC}, {K_MAL, 1, 1, false, F_PLAIN}};
